@@ -7,7 +7,8 @@ Lemma packet_recv_as_modelled_lemma :
   RECV_SKELETON = modelled_skeleton /\
   GET_EPOCH_OK = true /\ DISCARD_EPOCH_OK = true /\ DISCARD_SPACE_CLEARS_ACK_AT = true /\ CLOSE_OK = true /\ SPIN_FN_OK = true /\
   DISCARD_SITES = [(1, 0); (2, 0); (3, 9); (4, 2); (5, 2)] /\ KEY_UPDATE_SITES = [6] /\
-  RESERVED_MASK_SHORT = 24 /\ RESERVED_MASK_LONG = 12 /\ PROTOCOL_VIOLATION_CODE = 10 /\ SPIN_BIT = 32.
+  RESERVED_MASK_SHORT = M_RESERVED_SHORT /\ RESERVED_MASK_LONG = M_RESERVED_LONG /\ PROTOCOL_VIOLATION_CODE = M_PROTOCOL_VIOLATION /\
+  SPIN_BIT = M_SPIN_BIT /\ M_RESERVED_SHORT = 24 /\ M_RESERVED_LONG = 12 /\ M_PROTOCOL_VIOLATION = 10 /\ M_SPIN_BIT = 32.
 Proof. repeat split; reflexivity. Qed.
 
 Section P.
@@ -86,7 +87,7 @@ Section P.
      spin bit as before, idle timer untouched) -- except that a remote key update has already happened *)
   Lemma reserved_bits_checked_after_decrypt : forall c r now p',
     c_close c = None -> decrypt c r = Opened p' -> reserved_set r = true ->
-    recv c r now = set_close (set_pair c p') PROTOCOL_VIOLATION_CODE /\ c_close (recv c r now) = Some 10.
+    recv c r now = set_close (set_pair c p') M_PROTOCOL_VIOLATION /\ c_close (recv c r now) = Some 10.
   Proof.
     intros c r now p' G D R. unfold recv_packet. rewrite G, D, R. split; [reflexivity|]. cbn. rewrite G. reflexivity.
   Qed.
@@ -130,6 +131,37 @@ Section P.
     rewrite A1, A2, A3, A4, A5, A6, A7, A8, A9.
     destruct f; cbn [apply_fx]; unfold discard_epoch; cbn [space_of];
       try (destruct (sp_discarded (c_sp_handshake c))); cbn; repeat split; reflexivity.
+  Qed.
+
+  (* a server that opens a Handshake packet (reserved bits clear) has discarded the Initial epoch when receive_datagram returns:
+     keys gone, space marked, whatever the payload did *)
+  Lemma server_handshake_packet_discards_initial : forall c r now p',
+    c_is_client c = false -> c_close c = None -> decrypt c r = Opened p' -> reserved_set r = false -> r_epoch r = EHandshake ->
+    sp_discarded (c_sp_initial c) = false ->
+    has_keys (recv c r now) EInitial = false /\ sp_discarded (c_sp_initial (recv c r now)) = true.
+  Proof.
+    intros c r now p' IC G D R E ND. unfold recv_packet. rewrite G, D, R. unfold process. rewrite E. cbn [epoch_eqb andb].
+    set (c2 := set_space _ _ _).
+    assert (IC2 : c_is_client c2 = false) by (subst c2; cbn; exact IC). rewrite IC2. cbn [negb andb].
+    set (c3 := discard_epoch c2 EInitial).
+    assert (K3 : c_keys_initial c3 = false /\ sp_discarded (c_sp_initial c3) = true).
+    { subst c3 c2. unfold discard_epoch. cbn [space_of set_space set_pair c_sp_initial]. rewrite ND. cbn. auto. }
+    clearbody c3. clear c2 IC2.
+    set (c4 := if c_peer_latched c3 then c3 else latch_peer c3 (r_scid r)).
+    assert (K4 : c_keys_initial c4 = false /\ sp_discarded (c_sp_initial c4) = true) by (subst c4; destruct (c_peer_latched c3); cbn; exact K3).
+    clearbody c4.
+    set (c5 := if c_connected c4 then c4 else set_connected c4 (r_scid r)).
+    assert (K5 : c_keys_initial c5 = false /\ sp_discarded (c_sp_initial c5) = true) by (subst c5; destruct (c_connected c4); cbn; exact K4).
+    clearbody c5.
+    pose proof (fx_frame (f_fx (frames (r_payload r))) (deliver c5 (r_payload r))) as F. cbv zeta in F.
+    destruct F as (_ & F2 & F3 & _).
+    set (c7 := fold_left apply_fx _ _) in *.
+    assert (K8 : forall c8, c8 = match f_err (frames (r_payload r)) with Some k => set_close c7 k | None => c7 end ->
+                 c_keys_initial c8 = false /\ sp_discarded (c_sp_initial c8) = true).
+    { intros c8 ->. destruct (f_err _); cbn; rewrite F2, F3; cbn; exact K5. }
+    specialize (K8 _ eq_refl). set (c8 := match f_err _ with Some k => set_close c7 k | None => c7 end) in *.
+    clearbody c8. destruct (c_close c8); [exact K8|]. cbv zeta. cbn [space_of].
+    match goal with |- context [if ?b then _ else _] => destruct b end; cbn; exact K8.
   Qed.
 
   (* the peer's connection ID is latched by the FIRST packet that opens with clear reserved bits, and only by it *)
